@@ -351,6 +351,16 @@ fn collect_flow_count_flags_from_dynamic_string(
                     collect_flow_count_flags_from_nodes(branch, targets);
                 }
             }
+            DynamicStringPart::Conditional {
+                when_true,
+                when_false,
+                ..
+            } => {
+                collect_flow_count_flags_from_nodes(when_true, targets);
+                if let Some(nodes) = when_false {
+                    collect_flow_count_flags_from_nodes(nodes, targets);
+                }
+            }
             DynamicStringPart::Text(_) => {}
         }
     }
